@@ -3,6 +3,7 @@
 Only the property text and a scratch worktree path go in; nothing from /verif."""
 import json, sys
 pid, d = sys.argv[1], sys.argv[2]
+avoid = sys.argv[3] if len(sys.argv) > 3 else None
 p = [json.loads(l) for l in open('/verif/properties.jsonl') if json.loads(l)['id'] == pid][0]
 print(f"""You are working on a scratch git worktree of the NREL/altrios repository at {d} (ALTRIOS: a rail simulator; the Rust core is in {d}/rust/altrios-core). Work ONLY inside {d}. Do not read, list or modify anything under /repo or /verif.
 
@@ -18,7 +19,7 @@ YOUR TASK: write a change to the altrios *source code* (not its tests) that BREA
 Requirements for the change:
 - It must be realistic: the kind of slip, refactor mistake or well-meant "optimisation" that could survive code review (a wrong sign/index/comparison, a field not reset/restored/serialised, a cache not invalidated, state shared where it should not be, an ordering changed, a boundary case mishandled ...). Not sabotage code, no `if input == magic`.
 - It must need something SPECIFIC to manifest - a particular interleaving, a save/reload (crash) at a particular point, a multi-step sequence of operations, an unusual-but-legal input or configuration, or two cooperating sites that each look fine alone - NOT something that ordinary use (the default objects / default traces / the shipped example networks used by the existing tests) would expose at once.
-- Keep it small (a few lines, one to three sites). Only touch files under rust/altrios-core/src (or altrios-proc-macros/src).
+- Keep it small (a few lines, one to three sites). Only touch files under rust/altrios-core/src (or altrios-proc-macros/src).{(' Another engineer is already changing ' + avoid + ' - choose a different file.') if avoid else ''}
 - The existing tests must still pass, unedited. The test command is:
     cd {d}/rust && cargo nextest run --workspace --no-fail-fast --tool-config-file pb:/w/lib/nextest.toml --profile pb --test-threads 8 --offline
   (102 tests; the sandbox has no network, always pass --offline; a pre-seeded target dir exists at {d}/rust/target so only workspace crates rebuild, ~1-2 min.)
